@@ -9,24 +9,17 @@ Fixpoint texts_eq (a b : list text) : bool :=
   | x :: a', y :: b' => text_eqb x y && texts_eq a' b'
   | _, _ => false
   end.
-(* equal entry by entry, except possibly at index skip *)
-Fixpoint texts_eq_except (skip i : nat) (a b : list text) : bool :=
-  match a, b with
-  | [], [] => true
-  | x :: a', y :: b' => (Nat.eqb i skip || text_eqb x y) && texts_eq_except skip (S i) a' b'
-  | _, _ => false
-  end.
 Fixpoint rows_eq (a b : list (list text)) : bool :=
   match a, b with
   | [], [] => true
   | x :: a', y :: b' => texts_eq x y && rows_eq a' b'
   | _, _ => false
   end.
-(* the word tables of the source are the expected ones; the seventh scale word (10^18, spelled
-   "quantillion" in the source) is the one entry left open: it is the known finding C15-quantillion *)
+(* the word tables of the source are the expected ones, every entry (cardinalTriples[6] was spelled "quantillion"
+   until repo_fixes/C15-1) *)
 Definition tables_agree (g : tables) : bool :=
   rows_eq (t_roman g) (t_roman std_tables) && rows_eq (t_oldroman g) (t_oldroman std_tables) &&
-  texts_eq_except 6 0 (t_triples g) (t_triples std_tables) &&
+  texts_eq (t_triples g) (t_triples std_tables) &&
   texts_eq (t_one g) (t_one std_tables) && texts_eq (t_teen g) (t_teen std_tables) && texts_eq (t_ten g) (t_ten std_tables) &&
   texts_eq (t_ordone g) (t_ordone std_tables) && texts_eq (t_ordteen g) (t_ordteen std_tables).
 (* dirScanMap: a number ends exactly where the definition says it ends — digits and signs are not marked,
